@@ -1,6 +1,9 @@
 package main
 
 import (
+	"syscall"
+	"runtime"
+	"os"
 	"bytes"
 	"context"
 	"encoding/json"
@@ -27,6 +30,17 @@ type userAttr struct {
 func (a *userAttr) Key() string    { return a.k }
 func (a *userAttr) Value() any     { return a.v }
 func (a *userAttr) SetValue(v any) { a.v = v }
+
+// userAttrV is a user-defined Attr with VALUE receivers whose dynamic type is not comparable (it holds a slice): two
+// of them may be handed to == only through their methods.
+type userAttrV struct {
+	k string
+	v []any
+}
+
+func (a userAttrV) Key() string  { return a.k }
+func (a userAttrV) Value() any   { return a.v[0] }
+func (a userAttrV) SetValue(any) {}
 
 type verb struct {
 	name string
@@ -132,8 +146,10 @@ func c02args(r *gen.R, depthMax int) ([]any, []string) {
 				l = nil
 			}
 			add("[]Attr(with nil)", l)
-		case x < 79: // user-defined Attr
+		case x < 77: // user-defined Attr
 			add("userAttr", &userAttr{key(i), r.Value(o, 0).Go})
+		case x < 79: // two user-defined Attrs of a value type that is not comparable, under keys that sort next to each other
+			add("userAttr(value type, not comparable) x2", userAttrV{fmt.Sprintf("zzzz-ua%d-1", i), []any{r.Int64()}}, userAttrV{fmt.Sprintf("zzzz-ua%d-2", i), []any{r.Str(so)}})
 		case x < 86: // deep group
 			d := r.Range(1, depthMax)
 			var g slog.Attr = slog.Group(fmt.Sprintf("leaf%d", i), "x", r.Int64(), "y", r.Str(so))
@@ -179,6 +195,8 @@ type c02dest struct {
 	perLevel     map[slog.Level][]int
 }
 
+var c02thisFile = func() string { _, f, _, _ := runtime.Caller(0); return f }()
+
 func c02main(c *Ctx) {
 	log := mon.NewLog()
 	const nW = 5
@@ -215,6 +233,19 @@ func c02main(c *Ctx) {
 			} else {
 				slog.RemoveFlags(f)
 			}
+		}
+		// the known-path tables may redact the caller's whole path to nothing (caller and privacy flags switched on for it)
+		if r.P(6) {
+			slog.AddFlags(slog.Lcaller | slog.Lprivacypath)
+			if r.Bool() {
+				slog.AddKnownPathMapping(c02thisFile, "")
+				defer slog.RemoveKnownPathMapping(c02thisFile)
+			} else {
+				slog.AddFlags(slog.Lprivacypathregexp)
+				slog.AddKnownPathRegexpMapping(`^.*/vfh/c02\.go$`, "")
+				defer slog.RemoveKnownPathRegexpMapping(`^.*/vfh/c02\.go$`)
+			}
+			c.R.Add("calls_whose_caller_path_is_redacted_to_nothing", 1)
 		}
 		f := Format(r.Intn(3))
 		// destinations
@@ -280,7 +311,12 @@ func c02main(c *Ctx) {
 			if failing != 4 {
 				cnt := r.Intn(3)
 				pool[failing].(mon.W).Core().Fail = func(_ int, p []byte) (bool, int) { return true, []int{len(p), len(p) / 2, 0}[cnt] }
-				defer func() { pool[failing].(mon.W).Core().Fail = nil }()
+				// the error may be of the kind that calls itself temporary (EAGAIN, EINTR, also wrapped): still one Write each
+				ek := r.Intn(5)
+				pool[failing].(mon.W).Core().Err = func(int) error {
+					return []error{nil, nil, syscall.EAGAIN, syscall.EINTR, &os.PathError{Op: "write", Path: "/dev/pts/3", Err: syscall.EAGAIN}}[ek]
+				}
+				defer func() { pool[failing].(mon.W).Core().Fail = nil; pool[failing].(mon.W).Core().Err = nil }()
 				c.R.Add("calls_with_a_failing_pool_member", 1)
 			}
 		}
